@@ -316,7 +316,29 @@ pub fn gen_case(rng: &mut Rng, thorough: bool) -> J {
         Ok(Err(e)) => json!({"rej": format!("{:?}", e).split(|c: char| !c.is_alphanumeric()).next().unwrap_or("").to_string()}),
         Ok(Ok(s)) => {
             let iv = std::panic::catch_unwind(|| s.initial_value());
-            json!({"ok": enc_spec(&s.0), "init": iv.ok().map(|v| enc_value(&v.0))})
+            let mut o = json!({"ok": enc_spec(&s.0), "init": iv.as_ref().ok().map(|v| enc_value(&v.0))});
+            // a document that broke a rule on purpose (or an attribute soup) and was accepted all the same: what do the
+            // operators make of that parameter space?  A few mutations at probability 1 from the initial value; the
+            // driver evaluates conformance on every step (C01 quantifies over every ACCEPTED spec)
+            if label != "valid" && label != "keyword-like-members" {
+                if let Ok(v0) = iv {
+                    let mut walk: Vec<J> = Vec::new();
+                    let mut cur = v0;
+                    let mut path_ctx = cambrian::verif_hooks::PathContext::default();
+                    path_ctx.add_nodes_for(&cur);
+                    let mut std_rng = <rand::rngs::StdRng as rand::SeedableRng>::seed_from_u64(rng.next());
+                    let mp = cambrian::meta::MutationParams { mutation_prob: 1.0, mutation_scale: 1.0 };
+                    for _ in 0..8 {
+                        let r = std::panic::catch_unwind(std::panic::AssertUnwindSafe(|| cambrian::mutation::mutate(&s, &cur, &mp, &mut path_ctx, &mut std_rng)));
+                        match r {
+                            Ok(v) => { let e = enc_value(&v.0); if e.to_string().len() > 20_000 { break; } walk.push(e); cur = v; }
+                            Err(_) => { walk.push(json!({"panic": true})); break; }
+                        }
+                    }
+                    o["walk"] = J::Array(walk);
+                }
+            }
+            o
         }
     };
     let mut line = json!({"mode": "spec", "kind": label, "impl": imp_j, "text": if text.len() < 3000 { J::String(text.clone()) } else { J::Null }});
